@@ -4,6 +4,11 @@ import snowflake.connector.errors
 from sqlglot import exp
 
 
+# matches a variable reference (group 1 is its name), or text in which a $ is not a reference: a string literal
+# ('..' with '' or backslash escapes, or $$..$$) or a quoted identifier
+_REFERENCE_OR_QUOTED = re.compile(r"""'(?:[^'\\]|''|\\.)*'|\$\$.*?\$\$|"(?:[^"]|"")*"|(?<!\$)\$(\w+)""", re.DOTALL)
+
+
 # Implements snowflake variables: https://docs.snowflake.com/en/sql-reference/session-variables#using-variables-in-sql
 # [ ] Add support for setting multiple variables in a single statement
 class Variables:
@@ -63,10 +68,13 @@ class Variables:
         # substitute every reference in a single pass, looking up the whole name, so that a variable is never
         # replaced by another variable whose name is a prefix of it, and values are inserted verbatim
         def inline(match: re.Match) -> str:
+            if match.group(1) is None:
+                # string literal or quoted identifier, leave as is
+                return match.group()
             if (value := self._variables.get(match.group(1).upper())) is None:
                 raise snowflake.connector.errors.ProgrammingError(
                     msg=f"Session variable '{match.group().upper()}' does not exist"
                 )
             return value
 
-        return re.sub(r"(?<!\$)\$(\w+)", inline, sql)
+        return _REFERENCE_OR_QUOTED.sub(inline, sql)
